@@ -3099,6 +3099,8 @@ class Entity(MutableMapping[str, str]):
         self['classname'] = 'info_null'
         del self['targetname']
         self._keys.clear()
+        # Keep the classname we were filed under in by_class.
+        self._keys['classname'] = 'info_null'
         # Clear $fixup as well.
         self._fixup = None
     clear_keys = clear
